@@ -122,6 +122,10 @@ def uniformB (es : List Int) : Bool :=
   | e0 :: e1 :: _ => (List.zipWith (fun b a => b - a) es.tail es).all (fun d => d == e1 - e0)
   | _ => true
 
+/-- epoch conventions of match_all_storms: a storm runs through the end of its last rainy step
+    (`int(epoch[rain_stop - 1]) + time_step_s`); a rise ends at its last sample (`int(epoch[jump_stop - 1])`) -/
+abbrev stormThru (eLast step : Int) : Int := eLast + step
+
 def classifyStretch (pick : List Nat → Nat) (s j : α) (db : Loaded α) (label : Nat) :
     Except ClassifyErr Classified :=
   let smp := samplesOf db label
@@ -133,7 +137,7 @@ def classifyStretch (pick : List Nat → Nat) (s j : α) (db : Loaded α) (label
     let e (i : Nat) : Int := es.getD i 0
     .ok { flags := List.zipWith (fun t f => (t, f)) es r.flags
           interstorms := r.interstorms.map (fun ab => (e ab.1, e (ab.2 - 1)))
-          pairs := r.pairs.map (fun p => ((e p.1.1, e (p.1.2 - 1) + db.step), (e p.2.1, e p.2.2)))
+          pairs := r.pairs.map (fun p => ((e p.1.1, stormThru (e (p.1.2 - 1)) db.step), (e p.2.1, e p.2.2)))
           strict := r.strict }
 
 def classifyAll (pick : List Nat → Nat) (s j : α) (db : Loaded α) : Except ClassifyErr Classified :=
